@@ -66,6 +66,10 @@ func (p *Prog) inventory() map[string]string {
 			switch o := scope.Lookup(name).(type) {
 			case *types.Func:
 				inv[invKey("F", rel, name)] = sigKey(o)
+			case *types.Var:
+				inv[invKey("G", rel, name)] = "var|" + o.Type().String()
+			case *types.Const:
+				inv[invKey("G", rel, name)] = "const|" + o.Type().String() + "|" + o.Val().ExactString()
 			case *types.TypeName:
 				if o.IsAlias() {
 					continue
@@ -258,7 +262,7 @@ func (p *Prog) renamePlan() (map[types.Object]string, []string) {
 			used[cand[0]] = true
 			var obj types.Object
 			switch {
-			case sk.kind == "F" && tn == nil:
+			case (sk.kind == "F" || sk.kind == "G") && tn == nil:
 				obj = pkg.Types.Scope().Lookup(cand[0])
 			case sk.kind == "F":
 				o, _, _ := types.LookupFieldOrMethod(types.NewPointer(tn.Type()), true, pkg.Types, cand[0])
@@ -274,7 +278,7 @@ func (p *Prog) renamePlan() (map[types.Object]string, []string) {
 			}
 			if obj != nil {
 				plan[obj] = m
-				notes = append(notes, fmt.Sprintf("%s %s %s%s -> %s", map[string]string{"F": "func", "V": "field"}[sk.kind], sk.rel, map[bool]string{true: curType + ".", false: ""}[curType != ""], cand[0], m))
+				notes = append(notes, fmt.Sprintf("%s %s %s%s -> %s", map[string]string{"F": "func", "V": "field", "G": "package-level name"}[sk.kind], sk.rel, map[bool]string{true: curType + ".", false: ""}[curType != ""], cand[0], m))
 			}
 		}
 	}
